@@ -73,6 +73,7 @@ func (c *checker) hook(e *sim.Ev) {
 		if nw < old {
 			c.cov("install-below-applied")
 		}
+		s.applied = nw
 		c.ext.installApplied(c, s, key, old, nw, e)
 	case "h.install.done":
 		c.cov("install-done")
@@ -158,15 +159,26 @@ func (c *checker) voterMajorityHolds(i, term uint64, payload string) (bool, map[
 			}
 		}
 	}
-	var base uint64
+	var base, pred uint64
 	for _, x := range all {
 		if x.idx <= i && x.idx > base {
 			base = x.idx
 		}
 	}
+	// When entry i is itself a configuration entry, the configuration it
+	// replaces is still "in force" for the decision to commit it (the leader
+	// counts its own copy before it switches the tracker to the new set); both
+	// the old and the new voter set are accepted during a change.
+	if base == i {
+		for _, x := range all {
+			if x.idx < i && x.idx > pred {
+				pred = x.idx
+			}
+		}
+	}
 	tried := 0
 	for _, x := range all {
-		if x.idx == base || x.idx > i {
+		if x.idx == base || x.idx > i || (pred != 0 && x.idx == pred) {
 			tried++
 			v := ParseCfg(x.cfg).Voters()
 			h := 0
